@@ -130,6 +130,10 @@ const (
 	PolSticky
 	PolPCT
 	PolScript
+	// PolLockstep: the threads take turns in a fixed order, thread t for Quanta[t] steps at a
+	// time: periodic interleavings (one thread losing the same race again and again against
+	// another that completes an operation per turn), which random choice all but never produces
+	PolLockstep
 )
 
 type Stall struct {
@@ -150,6 +154,7 @@ type Config struct {
 	StickyPct    int     `json:"sticky_pct,omitempty"`
 	PCTDepth     int     `json:"pct_depth,omitempty"`
 	PCTLen       int     `json:"pct_len,omitempty"`
+	Quanta       []int   `json:"quanta,omitempty"`
 	Stalls       []Stall `json:"stalls,omitempty"`
 	FreezeAt     int     `json:"freeze_at"` // -1: never; the probe then starts when all workers are done
 	Probe        int     `json:"probe"`     // thread id of the probe, -1: none
@@ -794,6 +799,18 @@ func (s *Sim) stalled(t, step int) bool {
 	return false
 }
 
+// canRunIn: t is among the enabled (and not stalled) threads of this step.
+//
+//go:norace
+func (s *Sim) canRunIn(t int, en []int) bool {
+	for _, e := range en {
+		if e == t {
+			return true
+		}
+	}
+	return false
+}
+
 //go:norace
 func (s *Sim) canRun(t int) bool {
 	th := &s.th[t]
@@ -1054,6 +1071,7 @@ func (s *Sim) loop() {
 	idleRounds := 0
 	epochAtRound := uint64(0)
 	rr, rrTick := 0, 0
+	lsCur, lsLeft := s.n-1, 0
 	scriptPos := 0
 	for step := 0; ; step++ {
 	again:
@@ -1273,6 +1291,26 @@ func (s *Sim) loop() {
 						}
 					}
 					choice = b
+				case PolLockstep:
+					if lsLeft > 0 && s.canRunIn(lsCur, en[:ne]) {
+						lsLeft--
+						choice = lsCur
+					} else {
+						for i := 1; i <= s.n; i++ {
+							t := (lsCur + i) % s.n
+							if s.canRunIn(t, en[:ne]) {
+								lsCur, choice = t, t
+								lsLeft = 0
+								if t < len(cfg.Quanta) && cfg.Quanta[t] > 1 {
+									lsLeft = cfg.Quanta[t] - 1
+								}
+								break
+							}
+						}
+						if choice == -100 {
+							choice = en[0]
+						}
+					}
 				default:
 					choice = en[s.randn(ne)]
 				}
